@@ -606,6 +606,8 @@ def project(schema, fmt):
                 fix(f["t"])
                 if fmt == "openapi" and f.get("null") and f["t"]["k"] in ("ref", "enum", "const", "datetime"):
                     f["null"] = False
+                if fmt == "cue" and f.get("null") and f["t"]["k"] == "enum" and not isinstance(f["t"]["vals"][0], str):
+                    f["null"] = False      # cog's CUE front-end refuses `(1 | 2) | null` with member names
         elif k == "union":
             for b in t["of"]:
                 fix(b)
@@ -1377,7 +1379,8 @@ def stress_doc(rng, doc, p=0.25):
                 c = rng.random()
                 if c < 0.35 and k:
                     nk = rng.choice([k.upper(), k[0].upper() + k[1:], k.lower(), k.swapcase()])
-                    items[i] = (nk, v)
+                    if nk not in [k_ for k_, _ in items]:     # never create a duplicate with a container value
+                        items[i] = (nk, v)
                 elif c < 0.7 and not isinstance(v, (dict, list, DupObj)) and v is not None:
                     # the duplicate has the same JSON type: Go decodes a later duplicate INTO the earlier
                     # value (visible for disjunction structs), the model replaces it
